@@ -17,10 +17,10 @@ Require Import Model Spec Refine.
 Theorem C05_scoping :
   forall (g funs : list (list nat * expr)) (ignored : option nat)
          (t : list nat) (rx : nat -> nat -> option nat),
-    (forall r ps b, nth_error g r = Some (ps, b) -> wf g funs ignored t rx ps b) ->
-    (forall fid ps b, nth_error funs fid = Some (ps, b) -> wf g funs ignored t rx ps b) ->
+    (forall r ps b, nth_error g r = Some (ps, b) -> wf ps b) ->
+    (forall fid ps b, nth_error funs fid = Some (ps, b) -> wf ps b) ->
     (forall r, ignored = Some r -> exists es, nth_error g r = Some ([], Skip es)) ->
-    forall n e sc E s, wf g funs ignored t rx sc e -> scope_of sc E -> sub E (locals s) ->
+    forall n e sc E s, wf sc e -> scope_of sc E -> sub E (locals s) ->
       match peg g funs ignored t rx n E e (pos s), exec true g funs ignored t rx n e s with
       | Fuel, OutOfFuel => True
       | Raise, _ => True
@@ -74,7 +74,7 @@ Print Assumptions C05_class_member.
 Definition ex_g (flag : bool) : list (list nat * expr) :=
   [([], Let 1 false (Str [97] false) (Seq [Let 1 flag (Str [98] false) (Py (PVar 1)); Py (PVar 1)]))].
 Example C05_hypotheses_satisfiable :
-  (forall r b, nth_error (ex_g true) r = Some ([], b) -> wf (ex_g true) [] None [97; 98] (fun _ _ => None) [] b)
+  (forall r b, nth_error (ex_g true) r = Some ([], b) -> wf [] b)
   /\ match exec true (ex_g true) [] None [97; 98] (fun _ _ => None) 10 (Ref 0) (fresh 0) with
      | Done s => result s = VList [VStr [98]; VStr [97]] | _ => False end.
 Proof.
